@@ -65,8 +65,8 @@ fn verif_equal_tuple_fields(ldef: &Vec<(Rc<str>, Rc<Val>)>, rdef: &Vec<(Rc<str>,
 // Closures: Verus needs parameter types and an `ensures` on each closure (spliced by `subst`, bodies unchanged);
 // `.iter().any(f)` goes through the verified model `verif_any` (R9').
 //@ extract src/build/ir.rs :: impl ConstraintVal :: fn check
-//@   subst "self.arms.iter().any(|arm| match arm {" => "verif_any(self.arms.as_slice(), |arm: &ConstraintValArm| -> (b: bool) ensures b == arm_admits(*arm, *val) { match arm {"
-//@   subst "val.equal(expected).unwrap_or(false), })" => "val.equal(expected).unwrap_or(false), }})"
+//@   subst "}) }" => "}}) }"
+//@   subst "self.arms.iter().any(|arm| match arm {" => "verif_any(self.arms.as_slice(), |arm: &ConstraintValArm| -> (b: bool) requires decreases_to!(*self => *arm) ensures b == arm_admits(*arm, *val) { match arm {"
 //@   subst <<<
                 if let Val::Int(v) = val {
                     min.is_none_or(|lo| *v >= lo) && max.is_none_or(|hi| *v <= hi)
@@ -84,6 +84,7 @@ fn verif_equal_tuple_fields(ldef: &Vec<(Rc<str>, Rc<Val>)>, rdef: &Vec<(Rc<str>,
 //@   ret r
 //@   sig <<<
         ensures r == check_spec(*self, *val)
+        decreases *self
 //@   >>>
 //@   mutant int_hi_exclusive "(b: bool) ensures b == (*v <= hi) { *v <= hi }" => "(b: bool) ensures b == (*v <= hi) { *v < hi }" expect check
 //@   mutant int_lo_exclusive "(b: bool) ensures b == (*v >= lo) { *v >= lo }" => "(b: bool) ensures b == (*v >= lo) { *v > lo }" expect check
@@ -91,6 +92,7 @@ fn verif_equal_tuple_fields(ldef: &Vec<(Rc<str>, Rc<Val>)>, rdef: &Vec<(Rc<str>,
 //@   mutant first_arm_only "verif_any(self.arms.as_slice()," => "verif_any(vstd::slice::slice_subrange(self.arms.as_slice(), 0, 1)," expect check
 //@   mutant int_lo_hi_swapped "ConstraintValArm::Range(ConstraintBound::Int(min, max)) =>" => "ConstraintValArm::Range(ConstraintBound::Int(max, min)) =>" expect check
 //@   mutant int_range_admits_float "} else { false } } ConstraintValArm::Range(ConstraintBound::Float(min, max))" => "} else { if let Val::Float(_) = val { true } else { false } } } ConstraintValArm::Range(ConstraintBound::Float(min, max))" expect check
+//@   mutant named_alternative_by_equality "Val::Constraint(inner) => inner.check(val)," => "Val::Constraint(inner) => val.equal(expected).unwrap_or(false)," expect check
 //@   mutant no_arms_rejects "if self.arms.is_empty() { return true; }" => "if self.arms.is_empty() { return false; }" expect check
 //@ end
 
